@@ -398,6 +398,128 @@ theorem good_struct (tag : String) (fs : Fields) (hwf : structWF (fieldCs fs 0) 
   · intro _ x _ rest; simp [codecOf, structCodec, structDec]
   · intro h; simp [hasDflt] at h
 
+/-! ### enums -/
+
+/-- What `good_variants` establishes: the selected variant exists, its fields have the struct properties. -/
+def VariantsGood (vs : Variants) : Prop :=
+  ∀ (k : Nat) (xs : List Inst), okVariants vs k xs = true →
+    ∃ tag fs, nthVariant vs k = some (tag, fs) ∧ okFields fs xs = true ∧ structWF (fieldCs fs 0) = true
+      ∧ FieldsGood (attrNames fs) fs
+
+theorem variantCs_get : (vs : Variants) → (k : Nat) → (tag : String) → (fs : Fields) →
+    nthVariant vs k = some (tag, fs) → (variantCs vs)[k]? = some (tag, fieldCs fs 0)
+  | .nil, k, tag, fs, h => by simp [nthVariant] at h
+  | .cons t f rest, 0, tag, fs, h => by
+    simp only [nthVariant, Option.some.injEq, Prod.mk.injEq] at h
+    simp [variantCs, h.1, h.2]
+  | .cons t f rest, k + 1, tag, fs, h => by
+    simp only [nthVariant] at h
+    simp only [variantCs, List.getElem?_cons_succ]
+    exact variantCs_get rest k tag fs h
+
+theorem variantCs_tags : (vs : Variants) → (variantCs vs).map (·.1) = variantTags vs
+  | .nil => by simp [variantCs, variantTags]
+  | .cons t f rest => by simp [variantCs, variantTags, variantCs_tags rest]
+
+theorem findVariant_get (l : List (String × List FieldC)) :
+    ∀ (j k : Nat) (tag : String) (fs : List FieldC), distinct (l.map (·.1)) = true →
+      l[k]? = some (tag, fs) → findVariant l tag j = some (j + k, fs) := by
+  induction l with
+  | nil => intro j k tag fs _ h; simp at h
+  | cons a l ih =>
+    intro j k tag fs hd h
+    obtain ⟨t, f⟩ := a
+    simp only [List.map_cons, distinct, Bool.and_eq_true, Bool.not_eq_true'] at hd
+    cases k with
+    | zero =>
+      simp only [List.getElem?_cons_zero, Option.some.injEq, Prod.mk.injEq] at h
+      simp [findVariant, h.1, h.2]
+    | succ k =>
+      simp only [List.getElem?_cons_succ] at h
+      have hne : (t == tag) = false := by
+        have hm : tag ∈ l.map (·.1) := List.mem_map.mpr ⟨(tag, fs), List.mem_of_getElem? h, rfl⟩
+        have : ¬ (t = tag) := by
+          intro e
+          rw [← e, ← List.contains_iff_mem] at hm
+          rw [hd.1] at hm; cases hm
+        simpa using this
+      simp only [findVariant, hne, Bool.false_eq_true, ↓reduceIte]
+      rw [ih (j + 1) k tag fs hd.2 h]
+      congr 2
+      omega
+
+theorem mem_variantTags_of_nth : (vs : Variants) → (k : Nat) → (tag : String) → (fs : Fields) →
+    nthVariant vs k = some (tag, fs) → tag ∈ variantTags vs
+  | .nil, k, tag, fs, h => by simp [nthVariant] at h
+  | .cons t f rest, 0, tag, fs, h => by
+    simp only [nthVariant, Option.some.injEq, Prod.mk.injEq] at h
+    simp [variantTags, h.1]
+  | .cons t f rest, k + 1, tag, fs, h => by
+    simp only [nthVariant] at h
+    simp only [variantTags, List.mem_cons]
+    exact Or.inr (mem_variantTags_of_nth rest k tag fs h)
+
+theorem structDecAfterTag_of_structDec (tag : String) (fs : List FieldC) (hv : Val) (rest : List Attr)
+    (items : List Item) :
+    structDecAfterTag fs hv rest items = structDec tag fs (.record ((tag, hv) :: rest) items) := by
+  simp [structDec]
+
+theorem good_enum (vs : Variants) (hd : distinct (variantTags vs) = true) (hv : VariantsGood vs) :
+    Good (.enum vs) := by
+  have hkey : ∀ k xs, okVariants vs k xs = true →
+      ∃ tag fs' hv' rest items, (variantCs vs)[k]? = some (tag, fs') ∧ tag ∈ variantTags vs
+        ∧ structEnc tag fs' xs = .record ((tag, hv') :: rest) items
+        ∧ enumDec (variantCs vs) (.record ((tag, hv') :: rest) items) = some (.variant k xs) := by
+    intro k xs hok
+    obtain ⟨tag, fs, hn, hokf, hswf, hfg⟩ := hv k xs hok
+    have hget := variantCs_get vs k tag fs hn
+    obtain ⟨hv', rest, items, he⟩ := structEnc_form tag (fieldCs fs 0) xs
+    refine ⟨tag, fieldCs fs 0, hv', rest, items, hget, mem_variantTags_of_nth vs k tag fs hn, he, ?_⟩
+    have hfind := findVariant_get (variantCs vs) 0 k tag (fieldCs fs 0) (by rw [variantCs_tags]; exact hd) hget
+    have hlink : ∀ n, (attrNames fs).contains n = false → findField (segAs (fieldCs fs 0)) n = none := by
+      intro n hn'
+      apply findField_none_of_not_mem
+      rw [segAs_names]; exact hn'
+    have hg := hfg (segAs (fieldCs fs 0)) hlink 0 [] xs rfl hokf
+    simp only [List.nil_append] at hg
+    have hsd := structDec_enc tag (fieldCs fs 0) xs (idxNodup_fieldCs fs 0) hswf hg
+    have hmap := map_fieldVal_fieldCs fs 0 [] xs rfl hokf
+    simp only [List.nil_append] at hmap
+    rw [hmap, he, ← structDecAfterTag_of_structDec] at hsd
+    unfold enumDec
+    simp only [hfind, Nat.zero_add, hsd]
+  have hdec : ∀ x, okInst (.enum vs) x = true →
+      (codecOf (.enum vs)).dec ((codecOf (.enum vs)).enc x) = some x := by
+    intro x hx
+    cases x <;> simp [okInst] at hx
+    rename_i k xs
+    obtain ⟨tag, fs', hv', rest, items, hget, _, he, hd'⟩ := hkey k xs hx
+    simp only [codecOf, enumCodec, hget, he]
+    exact hd'
+  refine ⟨hdec, fun _ => hdec, ?_, ?_, ?_, ?_, ?_, ?_, ?_⟩
+  · intro names hb x hx
+    have hd' := hdec x hx
+    cases x <;> simp [okInst] at hx
+    rename_i k xs
+    obtain ⟨tag, fs', hv', rest, items, hget, hmem, he, _⟩ := hkey k xs hx
+    simp only [codecOf, enumCodec, hget, he] at hd' ⊢
+    simp only [bodySplit]
+    refine ⟨hd', ?_⟩
+    intro n v r hr
+    simp only [List.cons.injEq, Prod.mk.injEq] at hr
+    simp only [bodySafe, List.all_eq_true, Bool.not_eq_true'] at hb
+    rw [← hr.1.1]; exact hb tag hmem
+  · intro x _ h; simp [codecOf, enumCodec] at h
+  · intro _ x hx
+    cases x <;> simp [okInst] at hx
+    rename_i k xs
+    obtain ⟨tag, fs', hv', rest, items, hget, _, he, _⟩ := hkey k xs hx
+    simp only [codecOf, enumCodec, hget, he]; rfl
+  · intro _; simp [codecOf, enumCodec, enumDec]
+  · intro _ items; simp [codecOf, enumCodec, enumDec]
+  · intro _ x _ rest; simp [codecOf, enumCodec, enumDec]
+  · intro h; simp [hasDflt] at h
+
 mutual
 theorem good_ty : (t : Ty) → tyWF t = true → Good t
   | .int k, _ => good_int k
@@ -414,7 +536,9 @@ theorem good_ty : (t : Ty) → tyWF t = true → Good t
     simp only [tyWF, Bool.and_eq_true] at h
     exact good_struct tag fs h.2 (good_fields fs (attrNames fs) h.1)
   | .newtype _, h => by simp [tyWF] at h
-  | .enum _, h => by simp [tyWF] at h
+  | .enum vs, h => by
+    simp only [tyWF, Bool.and_eq_true] at h
+    exact good_enum vs h.2 (good_variants vs h.1)
 theorem good_fields : (fs : Fields) → (names : List String) → fieldsWF names fs = true → FieldsGood names fs
   | .nil, _, _ => by
     intro tbl _ k pre xs _ _ f hf
@@ -437,6 +561,21 @@ theorem good_fields : (fs : Fields) → (names : List String) → fieldsWF names
       · have := good_fields rest names h.2 tbl hlink (k + 1) (pre ++ [x]) xs' (by simp [hk]) hok.2 f hf
         rw [List.append_assoc] at this
         simpa using this
+theorem good_variants : (vs : Variants) → variantsWF vs = true → VariantsGood vs
+  | .nil, _ => by
+    intro k xs h
+    simp [okVariants] at h
+  | .cons tag fs rest, h => by
+    simp only [variantsWF, Bool.and_eq_true] at h
+    intro k xs hok
+    cases k with
+    | zero =>
+      simp only [okVariants] at hok
+      exact ⟨tag, fs, rfl, hok, h.1.2, good_fields fs (attrNames fs) h.1.1⟩
+    | succ k =>
+      simp only [okVariants] at hok
+      obtain ⟨t', fs', hn, r⟩ := good_variants rest h.2 k xs hok
+      exact ⟨t', fs', by simp [nthVariant, hn], r⟩
 end
 
 /-- **Round trip for every well-formed schema**: `try_from_value(as_value(x)) = x`. -/
